@@ -8,6 +8,7 @@ import (
 	"sort"
 	"strconv"
 	"strings"
+	"sync"
 	"syscall"
 	"time"
 
@@ -290,6 +291,79 @@ func c12ops(tier string) []c12op {
 			return fmt.Sprint(statusName(st), o.c.Destroy())
 		}},
 	)
+	// Destroy while the reply of an Open (it carries descriptors) is already queued for a caller that has not taken it yet:
+	// the caller is held right before its wait, the reply is let in, Destroy closes the socket, the caller is let go. Which
+	// of its two ready cases the caller's select takes is Go's choice and not ours, so the scene is played twelve times
+	ops = append(ops, c12op{"another-environment:destroy-while-an-open-reply-is-queued(x12)", func(e *c12env, nonce string) string {
+		defer func() { container.VerifHook = nil }()
+		for rep := 0; rep < 12; rep++ {
+			var mu sync.Mutex
+			armed := true
+			parked := make(chan struct{}, 1)
+			release := make(chan struct{})
+			replyIn := make(chan struct{}, 1)
+			container.VerifHook = func(id, arg int) {
+				switch id {
+				case container.VPHostCallerRecv:
+					mu.Lock()
+					a := armed
+					armed = false
+					mu.Unlock()
+					if a {
+						parked <- struct{}{}
+						<-release
+					}
+				case container.VPHostRecv:
+					select {
+					case replyIn <- struct{}{}:
+					default:
+					}
+				}
+			}
+			mu.Lock()
+			armed = false // Build's own exchange passes
+			mu.Unlock()
+			o, err := newContainer(nil)
+			if err != nil {
+				return err.Error()
+			}
+			for len(replyIn) > 0 {
+				<-replyIn
+			}
+			mu.Lock()
+			armed = true
+			mu.Unlock()
+			callDone := make(chan struct{})
+			go func() {
+				defer close(callDone)
+				fs, _ := o.Open([]container.OpenCmd{{Path: "/w/q1", Flag: os.O_CREATE | os.O_WRONLY, Perm: 0644}, {Path: "/w/q2", Flag: os.O_CREATE | os.O_WRONLY, Perm: 0644}})
+				for _, f := range fs {
+					if f.File != nil {
+						f.File.Close()
+					}
+				}
+			}()
+			select {
+			case <-parked:
+			case <-time.After(horizon):
+				close(release)
+				o.Destroy()
+				return "caller did not reach its wait"
+			}
+			select {
+			case <-replyIn:
+			case <-time.After(horizon):
+			}
+			time.Sleep(20 * time.Millisecond) // the pump queues the reply right after it announced it
+			destroyed := make(chan struct{})
+			go func() { o.Destroy(); close(destroyed) }()
+			time.Sleep(30 * time.Millisecond) // Destroy closes the socket first (it then waits for the call to end)
+			close(release)
+			<-callDone
+			<-destroyed
+		}
+		return "done"
+	}})
 	// the other two runners
 	for _, sh := range []string{"-", "p,i", "i2,p+"} {
 		for _, end := range []string{"exit", "signal", "cancel"} {
